@@ -412,6 +412,11 @@ def execute(run):
                 if tr.fired:
                     ctx.faults['F1_exception_inside_fit:' + op['kind']] += 1
                     ctx.nontrivial = True
+                    if n_fit_ok == 0 and n_fit_calls == 0 and o[0] == 'exc' and kind != 'biv':
+                        # a fresh object whose only fit never completed is an unfitted object
+                        ctx.probes['first_fit_interrupted_then_misuse'] += 1
+                        d_ = data.shape[1] if kind in ('gmv', 'vine') else 3
+                        _check_unfitted(ctx, live, subj, 'after an interrupted first fit', d_)
                 n_fit_calls += 1
                 seq.append('interrupted:' + outcome_class(o))
                 ctx.event('fit_interrupted', outcome_class(o), bool(tr.fired))
